@@ -10,7 +10,10 @@ VARIABLE s
 Orders == {0, 1, 2, 255}
 \* type words as four bytes, most significant first (the harness lays them out in the order byte's byte order)
 TypeWords == {<<0,0,0,k>> : k \in {0, 1, 2, 3, 4, 5, 6, 7, 8, 15, 17}} \cup {<<32,0,0,k>> : k \in 1..7} \cup {<<128,0,0,1>>}
-Counts == {<<0,0,0,0>>, <<0,0,0,1>>, <<0,0,0,2>>, <<16,0,0,0>>, <<16,0,0,1>>, <<128,0,0,0>>, <<255,255,255,255>>}
+\* boundary counts, and the counts c just above 2^32 / s for element sizes s in {3, 5, 8, 9, 16, 21, 24, 32}: c * s wraps
+\* to a small number in 32-bit arithmetic (a length guard written as a product is then passed by a huge count)
+Counts == {<<0,0,0,0>>, <<0,0,0,1>>, <<0,0,0,2>>, <<16,0,0,0>>, <<16,0,0,1>>, <<128,0,0,0>>, <<255,255,255,255>>,
+           <<8,0,0,0>>, <<8,0,0,1>>, <<10,170,170,171>>, <<10,170,170,172>>, <<12,48,195,13>>, <<12,48,195,14>>, <<16,0,0,0>>, <<16,0,0,1>>, <<28,113,199,29>>, <<28,113,199,30>>, <<32,0,0,0>>, <<32,0,0,1>>, <<51,51,51,52>>, <<51,51,51,53>>, <<85,85,85,86>>, <<85,85,85,87>>}
 Payloads == {"none", "point", "short", "points2", "member"}
 WktAlphabet == {"POINT", "LINESTRING", "POLYGON", "MULTIPOINT", "MULTIPOLYGON", "GEOMETRYCOLLECTION", "EMPTY",
                 "(", ")", ",", " ", "1", "-2.5", "3e2", "x", "1e"}
